@@ -93,7 +93,11 @@ func (s *State) getAPIKey(addr, user, pass string, logFH *os.File) (
 	loggedURI := passRE.ReplaceAllString(uri, "${1}xxx$2")
 	errlog.DoLog(logFH, loggedURI)
 	body, err := s.httpGet(uri)
-	keyRE := regexp.MustCompile(`(?s)<key>.*</key>`)
+	// Mask every spelling of element <key> that encoding/xml accepts
+	// (attributes, white space, namespace prefix), up to the last
+	// closing tag or, if the response was truncated, up to its end.
+	keyRE := regexp.MustCompile(
+		`(?s)<(?:[^\s<>/:]+:)?key(?:\s[^>]*)?>(?:.*</(?:[^\s<>/:]+:)?key\s*>|.*$)`)
 	loggedBody := keyRE.ReplaceAllString(string(body), "<key>xxx</key>")
 	errlog.DoLog(logFH, loggedBody)
 	if err != nil {
